@@ -191,6 +191,31 @@ CHECKS = {
             "by linear re-execution of every violation on fresh classes and by unmerged enumeration of all short "
             "histories. Out of scope: RenderArgs subclasses, multiple inheritance of render classes, non-int field values.",
             "DESIGN.md 3/C16, B.2"),
+    "C17": ("exploration",
+            "exhaustive product-grid enumeration: every sub-rectangle of every canvas, differential oracle on a terminal model",
+            "Exhaustive product grid on the real UrwidImage / UrwidImageCanvas: source images with all-distinct pixels "
+            "and transparency/run patterns x {block@other, block@kitty, kitty LINES@kitty/konsole, iterm2 "
+            "LINES@iterm2/wezterm/konsole} x box and flow widget sizes x 3x3 alignment x upscale x 4 alpha settings x "
+            "disguise states; for every canvas EVERY sub-rectangle is requested (1.8M trims quick, 33.7M thorough). Each "
+            "returned row is executed alone on the terminal model: exactly `cols` columns, no wrap, SGR default at the "
+            "end, cell-for-cell equal halves/colours to the crop of the untrimmed canvas (text), verbatim lines / blank "
+            "cells (graphics), exact row count, rows((c,)) equals rendered rows; the untrimmed canvas is cross-checked "
+            "against format(image, spec).",
+            "LINES method only for graphics; widths <= 10, heights <= 7, images <= 6x4 cells; vterm is the terminal.",
+            "DESIGN.md 3/C17"),
+    "C18": ("model_checking",
+            "explicit-state BFS over scene-transition histories, differential oracle (incremental vs. fresh redraw)",
+            "Explicit-state BFS over scene-transition histories executed on real urwid widgets (Pile / ListBox / Columns "
+            "/ Overlay / BoxAdapter / SolidFill / bare image) and a real UrwidImageScreen whose output feeds a "
+            "persistent terminal model; transitions {move/toggle/retarget overlay, scroll, switch layout, image<->text, "
+            "delete+gc, create, clear(), stop/start, redraw}; identities kitty/konsole/other; depth 3 (quick) / 4 "
+            "(thorough). Differential oracle: placements and visible text cells must equal a fresh screen drawing only "
+            "the final canvas; one synchronized-update bracket per redraw, flushed; no placement after start/stop/clear; "
+            "distinct in-range z-indexes; no exception. Plus BFS of the z-index allocator from states seeded at the "
+            "2^31 limit.",
+            "State merging guarded by an unmerged enumeration. iterm2-as-cell-content terminals, resize and the WHOLE "
+            "method are not covered; urwid 2.6.16 as installed.",
+            "DESIGN.md 3/C18"),
 }
 
 PENDING_REASON = "check not built yet in this round (design in DESIGN.md section 3); not claimed"
